@@ -650,7 +650,11 @@ def _reg_int_kinds(name, before, nsym, after, tier="quick"):
         runs = {}
         for K in INT_KINDS:
             fixed = tuple(K if t == INT else t for t in before)
+            # the conversion of the operator tree into an expression is an event here (its input is the result of the
+            # BinOpTree::add events - running the recursive conversion over an arbitrary tree explodes and decides nothing
+            # about token kinds)
             m_, eng, ts, paths = C09.explore_block(O, nsym, None, None, 2, fixed=fixed, suffix=after,
+                                                   keep=(r"<BinOpTree as Into>::into", r"<Expr as From>::from", r"binoptree"),
                                                    keep_outcomes=lambda oc: oc in ("return", "cut", "unsupported"))
             acc = []
             for p in paths:
